@@ -130,7 +130,7 @@ PROPS = {
         ],
         trusted_base=["GNU ld --wrap interposition of fopen/fread/fwrite/fseek/fflush/fclose; streams are unbuffered so a library write is a physical write",
                       "fault model: a failing call transfers nothing (engine fault) or half of the request (engine hp); a failing fclose still releases the descriptor"],
-        assumptions=["the workload library harness/workloads.h (13 workloads) is the quantification domain of the API-level enumeration; it is complete for that library, not for all programs"],
+        assumptions=["the workload library harness/workloads.h (16 workloads) is the quantification domain of the API-level enumeration; it is complete for that library, not for all programs"],
     ),
     "C06": dict(
         lean_props=["H4.Props.C06"],
